@@ -45,6 +45,7 @@ class Case:
     nontrivial: bool = True
     cmp: str = "eq"      # "eq": results equal; "member": implementation result is one of the '|'-separated spec results
     margs: list = None   # arguments for the Coq side when they differ from the implementation's
+    post: object = None  # callable(impl_result) -> (impl_result_to_compare, margs): second phase fed by the implementation
 
 
 NAMES = {}
@@ -821,6 +822,103 @@ def c09_streams(ctx):
 
 
 # ------------------------------------------------------------------------------------------------
+# C13
+
+def random_post(case_args):
+    def post(impl_result):
+        if " ## " not in impl_result:
+            return impl_result, None
+        res, log = impl_result.split(" ## ", 1)
+        lg = json.loads(log)
+        kind, cc, ur, pins, _seed = case_args
+        return res, [kind, cc, ur, pins, str(lg["ci"]), str(lg["bi"]), ";".join(lg["draws"])]
+    return post
+
+
+def pins_str(pins):
+    return ";".join(enc(k) + "=" + enc(v) for k, v in pins.items())
+
+
+def c13_cases(ctx):
+    rng = ctx.rng
+    ccs = countries(ctx)
+    n_seeds = 1 if ctx.quick else 6
+    for cc in ccs + [""]:
+        row = ctx.facts["iban_rows"].get(cc, {})
+        pos = row.get("positions") or {}
+        for _ in range(n_seeds):
+            for ur in ("1", "0"):
+                seed = rng.randrange(10 ** 6)
+                yield cc, ur, {}, seed
+            # pinned components taken from a valid IBAN of the country
+            if cc and pos:
+                b = random_bban(ctx, cc)
+                names = [k for k in pos if pos[k][1] > pos[k][0]]
+                for k in (names if not ctx.quick else rng.sample(names, min(2, len(names)))):
+                    s, e_ = pos[k]
+                    yield cc, rng.choice("10"), {k: b[s:e_]}, rng.randrange(10 ** 6)
+                if len(names) >= 2:
+                    ks = rng.sample(names, 2)
+                    yield cc, rng.choice("10"), {k: b[pos[k][0]:pos[k][1]] for k in ks}, rng.randrange(10 ** 6)
+                # malformed pins: longer than the field, out-of-class characters
+                k = rng.choice(names)
+                s, e_ = pos[k]
+                yield cc, rng.choice("10"), {k: b[s:e_] + "7"}, rng.randrange(10 ** 6)
+                yield cc, rng.choice("10"), {k: "-" + b[s:e_][1:]}, rng.randrange(10 ** 6)
+            if cc and not pos:
+                yield cc, "0", {"bank_code": "1"}, rng.randrange(10 ** 6)
+
+
+HASHSEED_SCRIPT = r"""
+import sys, random
+sys.path.insert(0, sys.argv[1])
+from schwifty import IBAN, BBAN
+out = []
+for seed in (1, 7, 424242):
+    for cc in ("", "DE", "PL", "IT", "GB", "NO", "MU", "AO"):
+        for ur in (True, False):
+            try:
+                out.append(str(IBAN.random(cc, random=random.Random(seed), use_registry=ur)))
+            except Exception as e:
+                out.append(type(e).__name__)
+            try:
+                out.append(str(BBAN.random(cc, random=random.Random(seed), use_registry=ur, account_code="1")))
+            except Exception as e:
+                out.append(type(e).__name__)
+print("|".join(out))
+"""
+
+
+def hashseed_sweep(ctx):
+    """Equally seeded draws must be identical in every process and under every hash seed."""
+    repo = os.environ.get("VERIF_REPO", "/repo")
+    seeds = ["0", "1", "2", "12345", "random"] if ctx.quick else ["0", "1", "2", "3", "77", "12345", "4294967295", "random", "random"]
+    results = {}
+    for hs in seeds:
+        env = dict(os.environ)
+        env.update({"PYTHONHASHSEED": hs, "PYTHONPATH": repo})
+        r = subprocess.run(["/venv/bin/python", "-c", HASHSEED_SCRIPT, repo], capture_output=True, text=True, env=env, timeout=600)
+        if r.returncode != 0:
+            return {"ok": False, "cases": len(results), "detail": "subprocess failed: " + r.stderr[-300:]}
+        results.setdefault(r.stdout.strip(), []).append(hs)
+    if len(results) != 1:
+        groups = list(results.values())
+        return {"ok": False, "cases": len(seeds),
+                "violation": {"call": "IBAN.random / BBAN.random with random.Random(seed) under PYTHONHASHSEED",
+                              "args": [], "args_shown": [f"hash seeds giving different results: {groups}"],
+                              "observed_implementation": "results differ between processes", "expected_by_spec": "identical"}}
+    return {"ok": True, "cases": len(seeds) * 96}
+
+
+def c13_streams(ctx):
+    for cc, ur, pins, seed in c13_cases(ctx):
+        for kind in ("bban", "iban"):
+            args = [kind, enc(cc), ur, pins_str(pins), str(seed)]
+            yield Case("prop", "spec_random", args, "random-" + ("pinned" if pins else "free"), True)
+            yield Case("corr", "random", args, "random-" + ("pinned" if pins else "free"), True, "eq", None, random_post(args))
+
+
+# ------------------------------------------------------------------------------------------------
 # C07
 
 def german_methods(ctx):
@@ -948,10 +1046,49 @@ def _pred_de76(v, k):
     return r == 10
 
 
-PREDICATES = {"de76_remainder10": _pred_de76}
+def _pins_of(v):
+    out = {}
+    s = v["args"][3]
+    if s:
+        for kv in s.split(";"):
+            k, val = kv.split("=")
+            out[dec(k)] = dec(val)
+    return out
+
+
+COMPUTING = {"BE", "BA", "ES", "FR", "MC", "IT", "SM", "FI", "NO", "PL", "EE", "PT", "RS", "ME", "MK", "SI", "TL", "MR", "TN"}
+
+
+def _pred_pin_digits(v, k):
+    return v.get("call") == "spec_random" and "national_checksum_digits" in _pins_of(v) \
+        and v.get("observed_implementation", "").startswith("PIN-NOT-HONOURED national_checksum_digits")
+
+
+def _pred_pin_long(v, k):
+    if v.get("call") != "spec_random" or not v.get("observed_implementation", "").startswith("PIN-NOT-HONOURED"):
+        return False
+    m = re.match(r"PIN-NOT-HONOURED (\w+): '(.*)' != '(.*)'", v["observed_implementation"])
+    return bool(m) and len(m.group(3)) > len(m.group(2)) and m.group(3).startswith(m.group(2))
+
+
+def _pred_pin_nopos(v, k):
+    return v.get("call") == "spec_random" and v.get("observed_implementation", "").startswith("PIN-IGNORED-NO-POSITIONS")
+
+
+PREDICATES = {"de76_remainder10": _pred_de76, "pin_on_computed_digits": _pred_pin_digits,
+              "pin_longer_than_field": _pred_pin_long, "pin_without_positions": _pred_pin_nopos}
 
 
 REGISTRY = {
+    "C13": {
+        "streams": c13_streams,
+        "rule": "every country and the no-country form x seeds x {registry, no registry} x pinned component subsets taken from "
+                "valid BBANs; BBAN.random and IBAN.random must return a conforming BBAN / valid IBAN of the requested country "
+                "with every pin unchanged, or raise GenerateRandomOverflowError; a second equally seeded call must agree; a "
+                "registry draw must be a listed bank where every entry has a bank code; the model is fed the very choices "
+                "and xeger draws the implementation saw (instrumented from outside) and must return the same object",
+        "extra": {"hashseed-sweep": hashseed_sweep},
+    },
     "C08": {
         "streams": c08_streams,
         "rule": "per country with published positions: bank / branch / account values of exact, shorter, longer and combined "
